@@ -1416,7 +1416,7 @@ def build_specs():
         )
     )
     S.append(TypeSpec(ANY, "URI", [U("priority", 16, nominal=10), U("weight", 16), QStr("target", lo=1, nominal=b"https://example.com/")]))
-    S.append(TypeSpec(ANY, "CERT", [U("certificate_type", 16, exhaustive=False, nominal=1), U("key_tag", 16, nominal=4321), U("algorithm", 8, nominal=8), Blob("certificate", "b64", nominal=bytes(range(40)))]))
+    S.append(TypeSpec(ANY, "CERT", [U("certificate_type", 16, exhaustive=False, nominal=1, extra=list(range(0, 12)) + [252, 253, 254, 255]), U("key_tag", 16, nominal=4321), U("algorithm", 8, nominal=8), Blob("certificate", "b64", nominal=bytes(range(40)))]))
     S.append(TypeSpec(ANY, "HINFO", [CharStr("cpu", nominal=b"PDP-11"), CharStr("os", nominal=b"UNIX")]))
     S.append(TypeSpec(ANY, "ISDN", [CharStr("address", nominal=b"150862028003217"), CharStr("subaddress", nominal=b"004")], wire_fn=_wire_isdn, text_fn=_text_isdn))
     S.append(TypeSpec(ANY, "X25", [CharStr("address", nominal=b"311061700956")]))
@@ -1445,7 +1445,7 @@ def build_specs():
         TypeSpec(
             ANY,
             "TKEY",
-            [NameF("algorithm", nominal=[b"gss-tsig", b""]), U("inception", 32, nominal=1700000000), U("expiration", 32, nominal=1700086400), U("mode", 16, nominal=3), U("error", 16, nominal=0), Blob("key", "b641", prefix=2, hi=65535, big=3000), Blob("other", "b641", prefix=2, hi=65535, nominal=b"", big=3000)],
+            [NameF("algorithm", nominal=[b"gss-tsig", b""]), U("inception", 32, nominal=1700000000), U("expiration", 32, nominal=1700086400), U("mode", 16, nominal=3), U("error", 16, nominal=0, extra=range(0, 26)), Blob("key", "b641", prefix=2, hi=65535, big=3000), Blob("other", "b641", prefix=2, hi=65535, nominal=b"", big=3000)],
             text_fn=_text_none,
         )
     )
@@ -1453,7 +1453,7 @@ def build_specs():
         TypeSpec(
             ANY,
             "TSIG",
-            [NameF("algorithm", nominal=[b"hmac-sha256", b""]), U("time_signed", 48, nominal=1700000000), U("fudge", 16, nominal=300), Blob("mac", "b641", prefix=2, hi=65535, nominal=bytes(range(32)), big=3000), U("original_id", 16, nominal=4660), U("error", 16, hi=4095, nominal=0), Blob("other", "b641", prefix=2, hi=65535, nominal=b"", big=3000)],
+            [NameF("algorithm", nominal=[b"hmac-sha256", b""]), U("time_signed", 48, nominal=1700000000), U("fudge", 16, nominal=300), Blob("mac", "b641", prefix=2, hi=65535, nominal=bytes(range(32)), big=3000), U("original_id", 16, nominal=4660), U("error", 16, hi=4095, nominal=0, extra=range(0, 26)), Blob("other", "b641", prefix=2, hi=65535, nominal=b"", big=3000)],
             wire_fn=_wire_tsig,
             text_fn=_text_none,
         )
